@@ -54,7 +54,7 @@ def new_points(rng, ax):
 
 class C18(Prop):
     id = "C18"
-    theorems = []
+    theorems = ["interpAt_node", "interpAt_left", "interpAt_right", "interpAt_between", "interpAxis_axes"]
     rule = ("float/int arrays of rank 1-4 with numeric axis labels stored increasing / decreasing / shuffled (power-of-two "
             "gaps and dyadic values so that every float operation is exact), every numeric axis by name or position, new "
             "coordinate vectors (sorted or not) with points below, on, between and above the labels, left/right fills "
